@@ -296,7 +296,7 @@ def rand_dist_case(rng, nmin=1, nmax=4, amax=3, bases=BASES, allow_space=True, a
             space = [spacekind, members]
     names = None
     if allow_names and rng.random() < 0.4:
-        names = rng.choice([list('XYZW'), list('WZYX'), ['x1', 'x0', 'b', 'a']])[:n]
+        names = rng.choice([list('XYZWV'), list('WZYXA'), ['x1', 'x0', 'b', 'a', 'c2']])[:n]
     case = {'klass': klass, 'n': n, 'alphabets': alphabets, 'outs': support, 'pmf': [str(p) for p in pmf],
             'space': space, 'base': rng.choice(bases), 'sparse': rng.random() < 0.6,
             'trim': rng.random() < 0.6, 'names': names, 'style': style, 'spacekind': spacekind}
